@@ -284,6 +284,9 @@ func (c *Case) body() string {
 func (c *Case) line() string {
 	b := c.body()
 	i := strings.IndexByte(b, ' ')
+	if c.huge() { // not judged by the model (oracle only)
+		return "HUGE " + b
+	}
 	l := b[:i] + " " + c.hashes() + b[i:]
 	if c.Obs != "" {
 		l += " OBS " + c.Obs
@@ -471,6 +474,24 @@ func matches(b []byte, dg string, sz int64) bool {
 	return algOf(dg)+":"+hx == dg
 }
 
+// guard runs f and returns the value of a panic (nil when f returned)
+func guard(f func()) (p any) {
+	defer func() { p = recover() }()
+	f()
+	return nil
+}
+
+const hugeSize = int64(1) << 30 // beyond this the extracted model is not run (Peano numbers)
+
+func (c *Case) huge() bool {
+	for _, p := range c.Pushes {
+		if p.SZ > hugeSize {
+			return true
+		}
+	}
+	return false
+}
+
 func fail(id, sig, msg string, c *Case) {
 	run.OracleFail(id, sig, msg, map[string]string{"line": c.body()})
 }
@@ -488,7 +509,12 @@ func descOf(p Push) ocispec.Descriptor {
 func runRA(id string, c *Case) string {
 	p := c.Pushes[0]
 	r := newReader(p)
-	b, err := content.ReadAll(source(r, c.Lim), descOf(p))
+	var b []byte
+	var err error
+	if pv := guard(func() { b, err = content.ReadAll(source(r, c.Lim), descOf(p)) }); pv != nil {
+		fail(id, "size-panic", fmt.Sprintf("ReadAll panicked for Size %d: %v", p.SZ, pv), c)
+		return "PANIC"
+	}
 	st := streamOf(p.Script)
 	if err == nil {
 		switch {
@@ -737,10 +763,18 @@ func runST(id string, c *Case) string {
 		}
 		_, xBefore := existsStr(e.st, d)
 		lBefore := joinListing(e.listing())
-		err := e.st.Push(ctx, d, newReader(p))
+		var err, ferr error
+		var fb []byte
+		if pv := guard(func() { err = e.st.Push(ctx, d, newReader(p)) }); pv != nil {
+			fail(id, "size-panic", fmt.Sprintf("push %d on %s panicked for Size %d: %v", i+1, c.Kind, p.SZ, pv), c)
+			return "PANIC"
+		}
 		res := errEnum(err)
 		xs, xAfter := existsStr(e.st, d)
-		fb, ferr := content.FetchAll(ctx, e.st, d)
+		if pv := guard(func() { fb, ferr = content.FetchAll(ctx, e.st, d) }); pv != nil {
+			fail(id, "size-panic", fmt.Sprintf("FetchAll after push %d on %s panicked for Size %d: %v", i+1, c.Kind, p.SZ, pv), c)
+			return "PANIC"
+		}
 		fobs := errEnum(ferr)
 		if ferr == nil {
 			fobs = "OK/" + dstr(fb)
@@ -1263,6 +1297,9 @@ func genPush(r *common.Rand, data []byte) Push {
 		p.SZ -= int64(1 + r.Intn(2))
 	case k < 17:
 		p.SZ = 0
+		if r.Chance(1, 2) { // a size no allocation can satisfy
+			p.SZ = common.Pick(r, []int64{1 << 62, 1<<63 - 1, 1<<62 + 12345})
+		}
 	case k < 20:
 		p.SZ = -int64(1 + r.Intn(5))
 		if r.Chance(1, 2) { // the empty blob with a negative size
@@ -1418,6 +1455,9 @@ func genProxy(r *common.Rand) *Case {
 			prev := c.Pushes[r.Intn(i)]
 			p.DG, p.SZ, p.MT = prev.DG, prev.SZ, prev.MT
 		}
+		if p.SZ > hugeSize { // a panic in the proxy's push goroutine cannot be recovered by the harness
+			p.SZ = int64(len(data)) + 1
+		}
 		p.Stop = r.Chance(1, 5)
 		p.Ks = genKs(r, len(streamOf(p.Script)))
 		c.Pushes = append(c.Pushes, p)
@@ -1562,6 +1602,9 @@ func main() {
 	}
 	for i := 0; i < run.Scale(300, 15000); i++ {
 		p := genPush(r, genData(r))
+		if p.SZ > hugeSize {
+			p.SZ = 3
+		}
 		kind := "mem"
 		if r.Chance(1, 3) {
 			kind = fmt.Sprintf("lim%d", p.SZ+int64(r.Intn(3))-1)
